@@ -39,6 +39,10 @@ struct AllocCfg {
 	size_t cap = SIZE_MAX;        // single allocations above this throw std::bad_alloc ("finite memory")
 	uint64_t capHits = 0;
 	uint64_t allocs = 0;
+	// failing allocations: while the fault layer is armed, the failCountdown-th operator new from now throws std::bad_alloc
+	// (0 = off). Models a machine running out of memory at an arbitrary point inside one library call.
+	uint64_t failCountdown = 0;
+	uint64_t injectedFailures = 0;
 };
 extern AllocCfg g_alloc;
 extern bool g_rawMemory;
